@@ -416,6 +416,46 @@ Proof.
   - exists []. apply loop_none.
 Qed.
 
+(* whatever the links are, the result is the chain of parent() cut before the first repeat *)
+Lemma loop_cut : forall t c, wf_table t = true -> cache_fresh_b t c = true ->
+  forall fuel seen p ep acc r, lookup t p = Some ep ->
+  parents_loop as_is t c fuel seen (spec_parent t p (kp_start ep)) acc = Val (Some r) ->
+  exists l, r = acc ++ l /\ chain_cut t seen p l.
+Proof.
+  intros t c W F. induction fuel as [|f IH]; intros seen p ep acc r Lp H;
+    destruct (spec_parent t p (kp_start ep)) as [[q sq]|] eqn:SP.
+  - assert (Pq : spec_parent_of t p = Some q) by (rewrite (spec_parent_of_eq t p _ ep Lp eq_refl), SP; reflexivity).
+    destruct (memz q seen) eqn:M.
+    + rewrite (loop_seen as_is t c O seen q sq acc eq_refl M) in H. injection H as Hr. subst r.
+      exists []. split; [symmetry; apply app_nil_r|]. apply memz_In in M. apply (cut_seen t seen p q Pq M).
+    + rewrite (loop_zero as_is t c seen q sq acc) in H; [discriminate | cbn [fx_parents_seen as_is andb]; exact M].
+  - rewrite loop_none in H. injection H as Hr. subst r. exists []. split; [symmetry; apply app_nil_r|].
+    apply cut_root. rewrite (spec_parent_of_eq t p _ ep Lp eq_refl), SP. reflexivity.
+  - assert (Pq : spec_parent_of t p = Some q) by (rewrite (spec_parent_of_eq t p _ ep Lp eq_refl), SP; reflexivity).
+    destruct (memz q seen) eqn:M.
+    + rewrite (loop_seen as_is t c (S f) seen q sq acc eq_refl M) in H. injection H as Hr. subst r.
+      exists []. split; [symmetry; apply app_nil_r|]. apply memz_In in M. apply (cut_seen t seen p q Pq M).
+    + destruct (spec_parent_listed _ _ _ _ _ SP) as [e' [L' S']].
+      rewrite (loop_step as_is t c W F f seen q sq e' acc L' S') in H; [|cbn [fx_parents_seen as_is andb]; exact M].
+      rewrite <- S' in H. destruct (IH (q :: seen) q e' (acc ++ [q]) r L' H) as [l [E C]].
+      exists (q :: l). split; [rewrite E, <- app_assoc; reflexivity|].
+      apply memz_false in M. apply (cut_step t seen p q l Pq M C).
+  - rewrite loop_none in H. injection H as Hr. subst r. exists []. split; [symmetry; apply app_nil_r|].
+    apply cut_root. rewrite (spec_parent_of_eq t p _ ep Lp eq_refl), SP. reflexivity.
+Qed.
+
+Theorem parents_cut : forall t cache o, wf_table t = true -> alive_b t o = true ->
+  cache_fresh_b t cache = true ->
+  exists l, parents as_is (S (length t)) t cache o = Val (Some l) /\ chain_cut t [o_pid o] (o_pid o) l.
+Proof.
+  intros t cache o W A F. destruct (parents_total t cache o W A F) as [l Hl]. exists l. split; [exact Hl|].
+  destruct (alive_facts t o A) as [_ [_ [e [L St]]]].
+  unfold parents in Hl. rewrite (parent_spec t cache o W A F) in Hl. cbn [obind] in Hl.
+  pose proof (cache_after_fresh t cache o A F) as F'. rewrite <- St in Hl.
+  destruct (loop_cut t _ W F' (S (length t)) [o_pid o] (o_pid o) e [] l L Hl) as [l' [E C]].
+  cbn [app] in E. subst l'. exact C.
+Qed.
+
 (* sufficient, decidable condition for acyclicity: every returned parent started strictly earlier *)
 Lemma up_older : forall t, strictly_older_b t = true -> forall k p q, up t (S k) p = Some q ->
   exists ep eq, lookup t p = Some ep /\ lookup t q = Some eq /\ kp_start eq < kp_start ep.
